@@ -9,8 +9,8 @@ From TxV Require Import Core.Base Model.FsDefs Gen.SrcFs Model.Fs Proofs.FsProof
    run — absent if it was absent; and the run raises exactly when the failure point is reached.
    `export` interprets the protocol translated from textx/export.py (Gen/SrcFs.v: order and nesting of open /
    write / close / os.replace / cleanup), so the statement is re-proved against the current source. *)
-Theorem C31_atomic : forall f chunks sched fl, temp f = None ->
-  let '(f', raised) := export f chunks sched fl in
+Theorem C31_atomic : forall xd f chunks sched fl, temp f = None ->
+  let '(f', raised) := export xd f chunks sched fl in
   temp f' = None /\
   (if raised then target f' = target f else target f' = Some (complete chunks)) /\
   (raised = false <-> fl = NoFailure \/ (exists e p q, fl = AtFlush e p q /\ n_events chunks sched <= e)).
@@ -18,36 +18,56 @@ Proof. exact export_atomic. Qed.
 Print Assumptions C31_atomic.
 
 (* the instance for a byte buffer of any capacity *)
-Theorem C31_atomic_buffered : forall cap sizes f chunks fl, temp f = None ->
-  let '(f', raised) := export f chunks (sched_of_buffer cap sizes 0) fl in
+Theorem C31_atomic_buffered : forall xd cap sizes f chunks fl, temp f = None ->
+  let '(f', raised) := export xd f chunks (sched_of_buffer cap sizes 0) fl in
   temp f' = None /\ (if raised then target f' = target f else target f' = Some (complete chunks)).
 Proof. exact export_atomic_buffered. Qed.
 Print Assumptions C31_atomic_buffered.
 
-Theorem C31_rerun : forall chunks sched fl chunks' sched',
+Theorem C31_rerun : forall xd chunks sched fl chunks' sched',
   let f0 := {| target := None; temp := None |} in
-  let '(f1, raised) := gen_file false f0 chunks sched fl in
+  let '(f1, raised) := gen_file xd false f0 chunks sched fl in
   raised = true ->
-  gen_file false f1 chunks' sched' NoFailure = ({| target := Some (complete chunks'); temp := None |}, false).
+  gen_file xd false f1 chunks' sched' NoFailure = ({| target := Some (complete chunks'); temp := None |}, false).
 Proof. exact rerun_regenerates. Qed.
 Print Assumptions C31_rerun.
 
 (* the order of close and os.replace is what the theorem rests on: with os.replace inside the `with open`
    block a failing flush at close leaves a truncated target *)
-Theorem C31_order_matters : writes_to_temp = true ->
-  run early_replace {| target := None; temp := None |} [0; 1; 2] [] (AtFlush 0 true false)
+Theorem C31_order_matters : writes_to_temp = true -> forall xd,
+  run early_replace {| xdev := xd; same_dir := true |} {| target := None; temp := None |} [0; 1; 2] [] (AtFlush 0 true false)
   = ({| target := Some []; temp := None |}, true).
 Proof. exact early_replace_not_atomic. Qed.
 Print Assumptions C31_order_matters.
 
+(* ... and so are the place of the temporary file (`temp_same_dir`, translated from how its name is derived) and the
+   publication primitive: C31_atomic holds for every `xd` (whether or not the system temporary folder is on another
+   file system) because the temporary file is next to the target and os.replace is used.  With the temporary file
+   elsewhere and shutil.move, a failing copy across file systems truncates the target (absent before: left empty;
+   present before: overwritten by a part); on one file system, or next to the target, the same run publishes the
+   complete file; and os.replace from another file system never publishes anything.  Atomicity needs both. *)
+Theorem C31_publication_matters : writes_to_temp = true ->
+  run moved {| xdev := true; same_dir := false |} {| target := None; temp := None |} [0; 1; 2] [] (AtFlush 1 true false)
+    = ({| target := Some []; temp := None |}, true) /\
+  run moved {| xdev := true; same_dir := false |} {| target := Some [Chunk 9]; temp := None |} [0; 1; 2] [] (AtFlush 1 true true)
+    = ({| target := Some [Chunk 0]; temp := None |}, true) /\
+  run moved {| xdev := false; same_dir := false |} {| target := None; temp := None |} [0; 1; 2] [] (AtFlush 1 true false)
+    = ({| target := Some (complete [0; 1; 2]); temp := None |}, false) /\
+  run moved {| xdev := true; same_dir := true |} {| target := None; temp := None |} [0; 1; 2] [] (AtFlush 1 true false)
+    = ({| target := Some (complete [0; 1; 2]); temp := None |}, false) /\
+  run (PTry (PSeq (POpen PWrite) PReplace) PRemoveTmp) {| xdev := true; same_dir := false |} {| target := None; temp := None |} [0; 1; 2] [] NoFailure
+    = ({| target := None; temp := None |}, true).
+Proof. exact move_across_devices_not_atomic. Qed.
+Print Assumptions C31_publication_matters.
+
 Example C31_nonvacuous :
   (* everything buffered, the flush at close fails (disk full) *)
-  export {| target := None; temp := None |} [1;2;3] [] (AtFlush 0 true true) = ({| target := None; temp := None |}, true) /\
+  export true {| target := None; temp := None |} [1;2;3] [] (AtFlush 0 true true) = ({| target := None; temp := None |}, true) /\
   (* second low-level write of three fails once, part of the data written *)
-  export {| target := Some [Chunk 9]; temp := None |} [1;2;3] [FlushAll; FlushKeep; Buf] (AtFlush 1 false true) = ({| target := Some [Chunk 9]; temp := None |}, true) /\
-  export {| target := Some [Chunk 9]; temp := None |} [1;2;3] [Buf; FlushKeep] AtClose = ({| target := Some [Chunk 9]; temp := None |}, true) /\
+  export true {| target := Some [Chunk 9]; temp := None |} [1;2;3] [FlushAll; FlushKeep; Buf] (AtFlush 1 false true) = ({| target := Some [Chunk 9]; temp := None |}, true) /\
+  export true {| target := Some [Chunk 9]; temp := None |} [1;2;3] [Buf; FlushKeep] AtClose = ({| target := Some [Chunk 9]; temp := None |}, true) /\
   n_events [1;2;3] [FlushAll; FlushKeep; Buf] = 3 /\
-  export {| target := None; temp := None |} [1;2;3] [FlushAll; FlushKeep; Buf] (AtFlush 3 true true) = ({| target := Some [Chunk 1; Chunk 2; Chunk 3]; temp := None |}, false) /\
-  export {| target := None; temp := None |} [1;2;3] [Buf; FlushKeep] NoFailure = ({| target := Some [Chunk 1; Chunk 2; Chunk 3]; temp := None |}, false).
+  export true {| target := None; temp := None |} [1;2;3] [FlushAll; FlushKeep; Buf] (AtFlush 3 true true) = ({| target := Some [Chunk 1; Chunk 2; Chunk 3]; temp := None |}, false) /\
+  export true {| target := None; temp := None |} [1;2;3] [Buf; FlushKeep] NoFailure = ({| target := Some [Chunk 1; Chunk 2; Chunk 3]; temp := None |}, false).
 Proof. vm_compute. repeat split; reflexivity. Qed.
 Print Assumptions C31_nonvacuous.
